@@ -351,8 +351,13 @@ func compileMetadata(
 	}
 	keyspace.Aggregates = make(map[string]*AggregateMetadata, len(aggregates))
 	for i, _ := range aggregates {
-		aggregates[i].FinalFunc = *keyspace.Functions[aggregates[i].finalFunc]
-		aggregates[i].StateFunc = *keyspace.Functions[aggregates[i].stateFunc]
+		// FINALFUNC is optional, and the functions are read by a query of their own
+		if fn, ok := keyspace.Functions[aggregates[i].finalFunc]; ok {
+			aggregates[i].FinalFunc = *fn
+		}
+		if fn, ok := keyspace.Functions[aggregates[i].stateFunc]; ok {
+			aggregates[i].StateFunc = *fn
+		}
 		keyspace.Aggregates[aggregates[i].Name] = &aggregates[i]
 	}
 	keyspace.Views = make(map[string]*ViewMetadata, len(views))
